@@ -10,18 +10,35 @@ From TV Require Import Proofs.LexEquivBase Proofs.LexEquivTrivia Proofs.LexEquiv
                        Proofs.PrintBackBase Proofs.PrintBackEnc Proofs.PrintBackKey Proofs.PrintBackValue Proofs.PrintBackDoc Proofs.PrintBackTop
                        Proofs.PrintBackSort Proofs.PrintBackEnts Proofs.PrintBackDisplay Proofs.PrintBackSecs Proofs.PrintBackHKey Proofs.PrintBackFinal
                        Proofs.PrintBackSecDoc
-                       Proofs.PrintBackDVals Proofs.PrintBackDDisplay Proofs.PrintBackDAll Proofs.PrintBackDState Proofs.PrintBackDKey Proofs.PrintBackDItems
+                       Proofs.PrintBackDVals Proofs.PrintBackDDisplay Proofs.PrintBackDAll Proofs.PrintBackDState Proofs.PrintBackDKey Proofs.PrintBackIValue Proofs.PrintBackDItems
                        Proofs.PrintBackDDoc Proofs.PrintBackDFinal.
 From TV Require Proofs.DefsEquivSim.
 Require Import Lia ZifyBool ZifyN ZifyNat Sorting.Sorted Sorting.Permutation.
 
 (* every value of the document is plain: no dotted key inside an inline table (and the elements of
    arrays of tables are tables defined by headers) *)
-Definition dot_doc (d : doc) : bool := dsh_tbl (doc_root d).
+Definition dot_doc (d : doc) : bool := dsh_tbl vplain (doc_root d).
 
-Theorem doc_render_dotted s d : parse_document s = POk d ->
-  exists w t l o, strip_bom s = w ++ t /\ ws_tok w /\ lines_text t l o
-                  /\ (dot_doc d = true -> laid_out s (doc_root d) = true -> render s d = w ++ o).
+(* the values of the document are laid out in the tree as in the source: every inline table in them either
+   has plain keys or passes the check of Proofs/PrintBackIValue.v (`vok`) *)
+Definition vals_ok (s : bytes) (r : tbl) : bool := dsh_tbl (vok s) r.
+
+Lemma dot_doc_vals_ok s d : dot_doc d = true -> vals_ok s (doc_root d) = true.
+Proof. apply (proj2 (proj2 (dsh_mono vplain (vok s) (proj1 (vplain_vok s))))). Qed.
+
+(* THE side condition: values and sections are laid out in the tree as in the source *)
+Definition laid_out' (s : bytes) (r : tbl) : bool := vals_ok s r && laid_out s r.
+
+(* the items of the document: what the parser read, as (print item, its text) pairs in source order; they
+   are — as a multiset — the print items of the tree *)
+Theorem doc_items s d : parse_document s = POk d ->
+  exists w t l o (items : list sitem),
+    strip_bom s = w ++ t /\ ws_tok w /\ lines_text t l o
+    /\ w ++ o = concat (map snd items) ++ raw_encode (traw s (doc_trailing d)) []
+    /\ t_dotted (doc_root d) = false /\ t_decor (doc_root d) = decor_default /\ t_position (doc_root d) = None
+    /\ uk2 (hkey s) (doc_root d)
+    /\ Permutation (ALLI (t_items (doc_root d))) (map fst items) /\ Forall (sitem_ok s) items
+    /\ StronglySorted N.lt (map (fun it : sitem => ppos (fst it)) items).
 Proof.
   intro Hp. pose proof Hp as H. unfold parse_document, parse_all in H.
   destruct ((a <- document ;; eof ;;; ret a) (new_input s)) as [st i|e j|e j|x] eqn:E; try discriminate.
@@ -48,7 +65,7 @@ Proof.
   destruct (isrc_splits s _ bm i1 (isrc_new s) Sb) as [Hi1 _]. destruct (isrc_splits s i1 w0 i2 Hi1 Sw) as [Hi2 _].
   destruct (doc_loop_render3 s _ _ _ _ _ Hi2 El) as (t & l & o & St & Hlt & Hi3 & Hok).
   assert (Et : rest i2 = t) by (destruct St as [Rt _]; rewrite Rend, app_nil_r in Rt; exact Rt).
-  rewrite Et in Es. exists w0, t, l, o. split; [exact Es|]. split; [exact Hw0|]. split; [exact Hlt|]. intros Hf Hlay.
+  rewrite Et in Es.
   assert (HI0 : dinv s (on_ws state_new (pos i1, pos i2)) i2 [] i1 w0).
   { exists []. unfold on_ws, state_new. cbn [st_root st_path st_current st_trailing st_position st_is_array pop_key rev map concat].
     split; [apply uk2_eq; split; constructor|]. split; [apply uk2_eq; split; constructor|]. split; [reflexivity|]. split; [reflexivity|].
@@ -58,10 +75,19 @@ Proof.
   destruct (Hok [] i1 w0 HI0) as (out' & j0 & pend & HI' & Eo).
   destruct (dinv_finalize s stl i3 out' j0 pend st' HI' Ef) as (items & Est' & Hur & Hrd & Hdec & Hpos & Hperm & Hoks & Hsort & _ & Eout & Htr & Hj0 & Spend & _).
   assert (Etr : st_trailing st' = Some (pos j0, pos i3)) by (rewrite Est'; cbn [DefsEquivSim.finalized st_trailing]; exact Htr).
-  rewrite Etr in Hd. subst d. unfold dot_doc in Hf. cbn [doc_root] in *.
-  unfold render. cbn [doc_root doc_trailing].
-  rewrite (dsections_render s (st_root st') _ items Hf Hrd Hdec Hpos Hur Hperm Hoks Hsort Hlay).
-  rewrite (span_prints s j0 pend i3 [] Hj0 Spend), <- Eout, Eo. cbn [app]. rewrite (ncr_ws w0 Hw0). reflexivity.
+  rewrite Etr in Hd. subst d. cbn [doc_root doc_trailing] in *.
+  exists w0, t, l, o, items. split; [exact Es|]. split; [exact Hw0|]. split; [exact Hlt|].
+  split; [rewrite (span_prints s j0 pend i3 [] Hj0 Spend), <- Eout, Eo; cbn [app]; rewrite (ncr_ws w0 Hw0); reflexivity|].
+  repeat (split; [assumption|]). assumption.
+Qed.
+
+Theorem doc_render_dotted s d : parse_document s = POk d ->
+  exists w t l o, strip_bom s = w ++ t /\ ws_tok w /\ lines_text t l o
+                  /\ (vals_ok s (doc_root d) = true -> laid_out s (doc_root d) = true -> render s d = w ++ o).
+Proof.
+  intro Hp. destruct (doc_items s d Hp) as (w & t & l & o & items & Es & Hw & Hlt & Eo & Hrd & Hdec & Hpos & Hur & Hperm & Hoks & Hsort).
+  exists w, t, l, o. split; [exact Es|]. split; [exact Hw|]. split; [exact Hlt|]. intros Hf Hlay. unfold render.
+  rewrite (dsections_render s (doc_root d) _ items Hf Hrd Hdec Hpos Hur Hperm Hoks Hsort Hlay). symmetry. exact Eo.
 Qed.
 
 (* C03, classes (a) + (b) + (c) + dotted keys of key/value lines *)
@@ -69,5 +95,12 @@ Theorem render_normalize_dotted s d : parse_document s = POk d -> dot_doc d = tr
   render s d = normalize s.
 Proof.
   intros Hp Hf Hl. destruct (doc_render_dotted s d Hp) as (w & t & l & o & Es & Hw & Hlt & Hr).
-  rewrite (Hr Hf Hl). symmetry. apply (norm_lines s w t l o); [rewrite drop_bom_strip_bom; exact Es|exact Hw|exact Hlt].
+  rewrite (Hr (dot_doc_vals_ok s d Hf) Hl). symmetry. apply (norm_lines s w t l o); [rewrite drop_bom_strip_bom; exact Es|exact Hw|exact Hlt].
+Qed.
+
+(* C03: every class — one decidable side condition *)
+Theorem render_normalize_all s d : parse_document s = POk d -> laid_out' s (doc_root d) = true -> render s d = normalize s.
+Proof.
+  intros Hp Hl. unfold laid_out' in Hl. apply andb_true_iff in Hl as [Hv Hl]. destruct (doc_render_dotted s d Hp) as (w & t & l & o & Es & Hw & Hlt & Hr).
+  rewrite (Hr Hv Hl). symmetry. apply (norm_lines s w t l o); [rewrite drop_bom_strip_bom; exact Es|exact Hw|exact Hlt].
 Qed.
